@@ -137,7 +137,15 @@ class Engine(EngineBase):
             elif k == "sp_nested":
                 ops.append([k, h, rng.choice(["n.x", "l.append", "l[0]"]), rng.choice(VALS)])
             elif k == "sp_assign":
-                ops.append([k, h, small_sp(rng), rng.choice(["sp", "statepoint"])])
+                sp = small_sp(rng)
+                r = rng.random()
+                if P != "C04":
+                    pass
+                elif r < 0.08:
+                    sp["n"] = None
+                elif r < 0.16:
+                    sp[rng.choice(KEYS)] = rng.choice([True, 1.0, 2.0, False])
+                ops.append([k, h, sp, rng.choice(["sp", "statepoint"])])
             elif k == "update_sp":
                 ops.append([k, h, {rng.choice(KEYS): rng.choice(VALS)}, rng.random() < 0.5])
             elif k in ("update_cache", "init_project", "rm_cache", "lookup"):
@@ -227,6 +235,7 @@ class Run:
         self.executed = 0
         self.grams = []
         self.cache_written = [False, False]
+        self.shortcut = None
 
     def probe(self, name, n=1):
         self.probes[name] = self.probes.get(name, 0) + n
@@ -371,9 +380,13 @@ class Run:
         directories are tracked separately)."""
         return sorted(self.model[pi]) + sorted(d for d in self.emptydirs[pi])
 
+    def knows_sp(self, hd):
+        """A by-id handle that never loaded its state point cannot re-create a vanished job."""
+        return hd.kind != "by_id" or hd.loaded or self.job_of(hd) is not None
+
     def op_init(self, op):
         hd = self.pick(op[1])
-        if hd is None:
+        if hd is None or not self.knows_sp(hd):
             return
         jid = cid(hd.sp)
         existed = jid in self.model[hd.proj]
@@ -412,7 +425,7 @@ class Run:
 
     def _usable_for_doc(self, op):
         hd = self.pick(op[1])
-        if hd is None or hd.tainted or hd.doc_dead:
+        if hd is None or hd.tainted or hd.doc_dead or not self.knows_sp(hd):
             return None
         if cid(hd.sp) in self.emptydirs[hd.proj]:
             # an id-named directory without a state point file is not the product of any public
@@ -533,6 +546,36 @@ class Run:
             x.refused = False
 
     def _rekey2(self, op, hd, new_sp, do, pre_error=None):
+        self.shortcut = None
+        if op[0] in ("sp_assign", "update_sp"):
+            why = self._update_shortcut(hd.sp, new_sp)
+            if why:
+                self.shortcut = (hd.group, why, dict(hd.sp))
+        try:
+            self._rekey3(op, hd, new_sp, do, pre_error)
+        except Mismatch as m:
+            # two input classes for which the in-place update of the dependency
+            # (synced_collections SyncedDict._update, used by reset) keeps the old value
+            why = self._update_shortcut(hd.sp, new_sp) if op[0] in ("sp_assign", "update_sp") else None
+            if why and m.prop == "C04":
+                raise Mismatch("C04", "C04:assign:" + why, f"{m.msg} [old state point {hd.sp}]",
+                               "C04:assign:" + why)
+            raise
+
+    @staticmethod
+    def _update_shortcut(old, new):
+        for k, v in new.items():
+            if k not in old:
+                continue
+            o = old[k]
+            if v is None and isinstance(o, (dict, list)):
+                return "none-over-nested-collection-ignored"
+            if not isinstance(o, (dict, list)) and not isinstance(v, (dict, list)) and o == v \
+                    and type(o) is not type(v):
+                return "equal-but-differently-typed-value-ignored"
+        return None
+
+    def _rekey3(self, op, hd, new_sp, do, pre_error=None):
         """Common model for every route of changing a state point."""
         P = "C04"
         old_sp = hd.sp
@@ -1118,6 +1161,17 @@ class Run:
         return base
 
     def _coherence(self, op):
+        try:
+            self._coherence2(op)
+        except Mismatch as m:
+            sc = getattr(self, "shortcut", None)
+            if sc and m.prop == "C04":
+                raise Mismatch("C04", "C04:assign:" + sc[1], f"{m.msg} [old state point {sc[2]}]",
+                               "C04:assign:" + sc[1])
+            raise
+        self.shortcut = None
+
+    def _coherence2(self, op):
         """C04: every live handle describes the job the model says it denotes."""
         P = "C04"
         for hd in self.handles:
